@@ -361,6 +361,9 @@ PROGRAMS = [   # (client 1, client 2) - small programs around start / stop / res
     ([["start"], ["enq", 2], ["clear"], ["enq", 3], ["stop"]], [["enq", 1]]),
     ([["start"], ["stop"], ["start"], ["enq", 2]], [["enq", 1], ["enq", 3]]),
     ([["start"], ["enq", 1], ["enq", 2], ["enq", 3], ["release", 1], ["join"]], []),
+    # mutually dependent work: tasks 1 and 2 gate-blocked, a third one queued, then one gate opens
+    ([["start"], ["enq", 1], ["enq", 2], ["enq", 3], ["release", 1], ["joint"]], [], [1, 2]),
+    ([["start"], ["enq", 1], ["enq", 2], ["enq", 3], ["release", 2], ["release", 1], ["joint"]], [], [1, 2]),
     # a task that ends while stop() is waiting for its worker (the gate is opened by the other client), then a restart
     ([["start"], ["enq", 1], ["stop"], ["start"], ["enq", 2], ["joint"]], [["release", 1]]),
     ([["start"], ["enq", 1], ["enq", 2], ["stop"], ["start"], ["enq", 3], ["stop"]], [["release", 1], ["release", 2]]),
@@ -414,6 +417,9 @@ def planned_trace(mx, mn, gated, progs, plan, policy, qcap=0):
                 t = cur if cur in en else sorted(en, key=lambda x: x.idx if policy == "low" else -x.idx)[0]
         if not tmo and t.idx >= 100 and t.op[0] in ("is_set", "set", "clear", "qput", "acquire", "release", "qsize", "thread_start", "fetch", "return", "qempty", "unfinished_read", "qget_nowait", "thread_join"):
             choices.append((step, t.idx, [x.idx for x in en if x is not t] + [-x.idx for x in tm if x.idx < 100]))
+        elif not tmo and t.idx < 100 and t.op[0] == "acquire":
+            # a worker about to enter a critical section (e.g. between its dequeue and counting itself active)
+            choices.append((step, t.idx, [x.idx for x in en if x is not t]))
         if not tmo:
             cur = t
         S.step(t, tmo)
@@ -435,21 +441,23 @@ def explore(part, nparts, maxruns, rnd):
     """All schedules with at most one preemption (at the clients' synchronisation operations) of the catalogue programs."""
     out, seen = [], set()
     combos = []
-    for pi, progs in enumerate(PROGRAMS):
+    for pi, entry in enumerate(PROGRAMS):
         for (mx, mn) in ((1, 0), (2, 0), (2, 1), (1, 1)):
             for policy in ("low", "high"):
-                combos.append((progs, mx, mn, policy))
-    for (progs, mx, mn, policy) in combos[part::nparts]:
+                combos.append((entry, mx, mn, policy))
+    for (entry, mx, mn, policy) in combos[part::nparts]:
+        progs = entry[:2]
         released = sorted(set(op[1] for pr in progs for op in pr if op[0] == "release"))
-        gated = sorted(set(released) | set(t for t in (1, 2, 3) if rnd.random() < 0.25))
+        gated = sorted(entry[2]) if len(entry) > 2 else sorted(set(released) | set(t for t in (1, 2, 3) if rnd.random() < 0.25))
         base, choices = planned_trace(mx, mn, gated, progs, {}, policy)
         out.append(base)
-        plans = []
+        plans_c, plans_w = [], []
         for (st, curidx, others) in choices:
             for o in others:
-                plans.append({st: o})
-        rnd.shuffle(plans)
-        for plan in plans[:maxruns]:
+                (plans_c if curidx >= 100 else plans_w).append({st: o})
+        rnd.shuffle(plans_c)
+        rnd.shuffle(plans_w)
+        for plan in plans_c[:maxruns] + plans_w[:maxruns]:
             tr, _c = planned_trace(mx, mn, gated, progs, plan, policy)
             key = "|".join("%s:%s" % (e["thr"], e["k"]) for e in tr["ev"])
             if key not in seen:
